@@ -68,6 +68,7 @@ def main():
         return 0
 
     t0 = time.time()
+    os.environ["VERIF_TIER_EFFECTIVE"] = tier
     acc, coverage = mod.explore(tier)
     findings = core.load_findings()
 
@@ -80,6 +81,11 @@ def main():
         # determinism gate: the case must fail the same way from a fresh state ...
         core.reset_store()
         want = core.sig_key(core.jsonable(prob["sig"]))
+        if prob["sig"].get("kind") == "did_not_terminate":
+            # a work item that ran into the per-item limit is not re-executed (it would hang again): reported as is
+            n_viol += acc.problem_counts[k]
+            viol_lines.append((core.write_replay(prop, prob), prob))
+            continue
         try:
             again = core.run_isolated(mod.replay, core.jsonable(prob["case"]))
         except Exception as e:  # noqa
